@@ -210,6 +210,8 @@ def run(ck: Check):
                     ck.violation(f"[{atom}] after {strategy} (verdicts {v[:6]}..) the protected parts of the testcase are {fixed1!r}, "
                                  f"they were {fixed0!r}: text that is not an atom was rewritten or made reducible",
                                  {"atom": atom, "strategy": strategy, "data": data.hex(), "verdicts": v})
+    from envmatrix import run_matrix
+    run_matrix(ck, ("C16",))
     model = run_model(cases, shards=16)
     from coqlit import xcheck
     xcheck(ck, cases, model)
